@@ -30,10 +30,10 @@ func TestMain(m *testing.M) {
 }
 
 var (
-	C     = ref.SM2
-	curve = sm2ec.P256()
-	one   = big.NewInt(1)
-	two   = big.NewInt(2)
+	C      = ref.SM2
+	curve  = sm2ec.P256()
+	one    = big.NewInt(1)
+	two    = big.NewInt(2)
 	pow256 = new(big.Int).Lsh(one, 256)
 )
 
@@ -104,7 +104,21 @@ func affStr(x, y *big.Int) string {
 	if x == nil || y == nil {
 		return "(nil,nil)"
 	}
-	return fmt.Sprintf("(%x,%x)", x, y)
+	s := fmt.Sprintf("(%x,%x)", x, y)
+	if (x.Sign() != 0 || y.Sign() != 0) && !C.OnCurve(pt{X: x, Y: y}) {
+		s += " [model-free: this is not a point of the curve]"
+	}
+	return s
+}
+
+// triage adds a model-free observation to a mismatch report: a library
+// result that does not even satisfy the curve equation cannot be blamed on the
+// reference arithmetic.
+func triage(encoding []byte) string {
+	if _, err := C.Decode(encoding); err != nil {
+		return " [model-free: the library's value is not a point of the curve]"
+	}
+	return ""
 }
 
 func ptStr(p pt) string {
@@ -180,7 +194,7 @@ func expectPoint(what string, lp *verifhook.SM2P256Point, want pt) error {
 		return fmt.Errorf("%s: nil point, want %s", what, ptStr(want))
 	}
 	if got := lp.Bytes(); !bytes.Equal(got, C.Uncompressed(want)) {
-		return fmt.Errorf("%s: Bytes() = %s, exact arithmetic gives %s", what, h.Hex(got), h.Hex(C.Uncompressed(want)))
+		return fmt.Errorf("%s: Bytes() = %s, exact arithmetic gives %s%s", what, h.Hex(got), h.Hex(C.Uncompressed(want)), triage(got))
 	}
 	if got := lp.BytesCompressed(); !bytes.Equal(got, C.Compressed(want)) {
 		return fmt.Errorf("%s: BytesCompressed() = %s, exact arithmetic gives %s", what, h.Hex(got), h.Hex(C.Compressed(want)))
@@ -205,12 +219,12 @@ type namedPt struct {
 }
 
 var (
-	catOnce   sync.Once
-	catalogue []namedPt
-	smallG    []pt // smallG[k] = [k]G, k = 0..maxSmall
+	catOnce    sync.Once
+	catalogue  []namedPt
+	smallG     []pt             // smallG[k] = [k]G, k = 0..maxSmall
 	catClasses []string         // class names in order of first appearance
 	catByClass map[string][]int // indices into catalogue
-	catErr    error
+	catErr     error
 )
 
 const maxSmall = 1024
